@@ -354,6 +354,13 @@ func GenHistory(seed uint64, p *Profile) *Scenario {
 				case "switch":
 					st = Step{Conn: bc, Op: "join", Sess: g.sessName()}
 					g.joined[bc] = st.Sess
+				case "newjoin":
+					nc, ok := g.freshConn()
+					if !ok {
+						continue
+					}
+					st = Step{Conn: nc, Op: "join", Sess: "new"}
+					g.joined[nc] = "new"
 				case "joiner":
 					nc, ok := g.freshConn()
 					if !ok {
